@@ -12,7 +12,7 @@ TITLE = "Procedural generators give valid meshes of the promised shape, all para
 LEAN_MODULES = ["Mouette.Props.C14", "Mouette.Props.C14NoUnused", "Mouette.Props.C14Oriented", "Mouette.Props.C14Sphere", "Mouette.Props.C14Cylinder", "Mouette.Props.C14Rings", "Mouette.Props.C14Triangle", "Mouette.Props.C14Geom",
                 "Mouette.Props.C14Euler", "Mouette.Props.C14CylinderTopo", "Mouette.Props.C14RingsTopo", "Mouette.Props.C14GridTopo",
                 "Mouette.Props.C14TriangleTopo", "Mouette.Props.C14Connected", "Mouette.Props.C14Verts", "Mouette.Props.C14Derived", "Mouette.Props.C14Bisect",
-                "Mouette.Props.C14Solids", "Mouette.Props.C14NoRepeat", "Mouette.Props.C14Distinct", "Mouette.Props.C14Dual"]
+                "Mouette.Props.C14Solids", "Mouette.Props.C14NoRepeat", "Mouette.Props.C14Distinct", "Mouette.Props.C14Dual", "Mouette.Props.C14BisectReal"]
 
 # ------------------------------------------------------------------------------------------------
 # translated fragments
@@ -492,6 +492,10 @@ def cases(rng, tier):
             if n == 6 or tier != "quick": sweep += [{"gen": "flat_ring", "ints": [n, c_], "bools": [], "defect": dv} for c_ in (1, 2)]
     sweep += [{"gen": "cylinder", "ints": [n], "bools": [t], "axis": ax} for n in (3, 5, 8) for t in B
               for ax in ([0., 0., 3.], [0., 0., -2.], [1e-9, 0., 1.], [0., 2., 0.], [1., 0., 0.])]
+    # requests that are EXACTLY the defect reached at a midpoint of the bisection (apex heights 5, 2.5, 7.5: first and second pass)
+    # (quick: one such case — on a tree without the repair of the exact-hit branch each of them costs VERIF_CASE_TIMEOUT seconds)
+    sweep += ([{"gen": "ring", "ints": [4, 1], "bools": [False], "exact_mid": 5.0}] if tier == "quick" else
+              [{"gen": "ring", "ints": [n, 1], "bools": [o], "exact_mid": z} for n in (3, 4, 5, 6, 9) for o in B for z in (5.0, 2.5, 7.5)])
     sweep += _cyl_family_cases(rng, (5,) if tier == "quick" else (3, 8))
     sweep += [{"gen": "cylindrify_edges", "ints": [4], "bools": [], "no_edges": True},
               {"gen": "spherify_vertices", "ints": [1], "bools": [], "raw_points": True}]
@@ -583,6 +587,7 @@ def _run(case, trace=True):
 
     def V(p):
         v = M.Vec(*p); held.append((v, np.array(v, copy=True))); return v
+    _resolve_exact_mid(case, M)
     tr = _BranchTracer() if trace else None
     try:
         if tr: sys.settrace(tr.global_trace)
@@ -592,6 +597,17 @@ def _run(case, trace=True):
             sys.settrace(None)
             _LAST["branches"] = tr.keys()
         _LAST["args_changed"] = any(a.dtype != b.dtype or a.shape != b.shape or not np.array_equal(np.asarray(a), b) for a, b in held)
+
+
+def _resolve_exact_mid(case, M):
+    """`exact_mid: z` -> the requested defect is the float the implementation itself computes for the apex at height z (a midpoint of
+    the dichotomy), so that `defect == middfct` holds exactly in that pass"""
+    z = case.get("exact_mid")
+    if z is None or case["geo"].get("exact_mid_resolved"): return
+    N = int(case["ints"][0])
+    A, B_ = M.Vec(1., 0., 0.), M.Vec(math.cos(2 * 1 * math.pi / N), math.sin(2 * 1 * math.pi / N), 0.)
+    case["geo"]["defect"] = float(2 * math.pi - N * M.geometry.angle_3pts(A, M.Vec(0., 0., float(z)), B_))
+    case["geo"]["exact_mid_resolved"] = True
 
 
 _LAST = {"args_changed": False, "base": None, "branches": []}
@@ -853,6 +869,16 @@ def _check_dual(case, m):
         for k in range(len(r)):
             a, b = r[k], r[(k + 1) % len(r)]
             if not any((V, w) in sd[a] and (w, V) in sd[b] for w in bF[a]): return f"ring-hypothesis(order@{V})"
+    # hypothesis of dual_side_unique / dual_oriented: two faces are glued along at most one edge
+    glued = {}
+    for k, f in enumerate(bF):
+        for e in _sides(f): glued.setdefault(e, k)
+    pairs = {}
+    for (a, b), k in glued.items():
+        if (b, a) in glued:
+            key = (k, glued[(b, a)])
+            pairs[key] = pairs.get(key, 0) + 1
+    if any(v > 1 for v in pairs.values()): return "share-at-most-one-edge-hypothesis"
     return "ok"
 
 
@@ -1336,7 +1362,7 @@ def _defect_at(N, z):
 
 
 def describe(case):
-    return {k: case[k] for k in ("gen", "ints", "bools", "defaults", "rep", "volume", "colored", "mode", "base", "length_mult", "dim", "uv", "axis", "no_edges", "raw_points", "near_z") if k in case} | (
+    return {k: case[k] for k in ("gen", "ints", "bools", "defaults", "rep", "volume", "colored", "mode", "base", "length_mult", "dim", "uv", "axis", "no_edges", "raw_points", "near_z", "exact_mid") if k in case} | (
         {"defect": case["geo"]["defect"]} if case["gen"] in ("ring", "flat_ring") else {})
 
 
@@ -1393,7 +1419,10 @@ REQUIRED_THEOREMS = ["tetrahedron_closed_oriented", "icosahedron_closed_oriented
                      "dual_loops", "dual_positions", "dual_face_is_ring", "mem_dualFaces", "dual_inRange", "dual_noUnused",
                      "dual_face_simple", "dual_closed",
                      "apex_cos_formula", "apex_cos_strict_mono", "ring_defect_monotone", "ring_bisect_axis_invariant",
-                     "ring_apex_defect_within_tolerance_partial"]
+                     "ring_apex_defect_within_tolerance_partial",
+                     # round 7
+                     "dual_side_unique", "dual_oriented", "apex_cos_bounds", "ring_bisect_width", "ring_bisect_terminates_partial",
+                     "angle3ptsR_eq_source", "arg_eq_arccos", "angle3ptsR_apex", "ring_apex_defect_within_tolerance_real"]
 # every function defined in the files C14 is anchored in: what ties it to the Lean side.  "translated": a Generated definition is
 # re-extracted from that body on every run and a REQUIRED theorem (bridge / property) is stated about it; the part after the colon
 # says which parts of the body are covered and what is left to the oracle.
@@ -1416,11 +1445,11 @@ SOURCE_MAP = {
     _F + "quad": "translated: both face tables and stored corners — quad_disk, quad_parallelogram_corners",
     _F + "unit_grid": "translated: face loops and vertex loops — unit_gridFaces_norm, unit_grid_*_euler, unit_grid_in_unit_square; the uv attribute by the oracle",
     _F + "unit_triangle": "translated: face loops (normal-form layer unit_triangleFaces_norm) and vertex loops — unit_triangleFaces_addressed, unit_triangle_disk (nu >= nv; open finding for nu < nv)",
-    _R + "ring": "translated: face loop (normal-form layer ringFaces_norm), rim vertices, the bisection step with numpy aliasing — ring_*_euler, ring_rim_on_unit_circle, ring_bisect_step_spec; ring_defect_monotone, ring_apex_defect_within_tolerance_partial (defect met within the stopping tolerance given the arccos specification of angle_3pts, which is checked numerically on every ring case); termination of the float loop and the final value by the oracle",
+    _R + "ring": "translated: face loop (normal-form layer ringFaces_norm), rim vertices, the bisection step with numpy aliasing — ring_*_euler, ring_rim_on_unit_circle, ring_bisect_step_spec; ring_defect_monotone, ring_apex_defect_within_tolerance_real (over R, angle_3pts = its source body: defect met within the stopping tolerance), ring_bisect_width / ring_bisect_terminates_partial (bracket halves every pass); float rounding, the extension phase's termination and the final value by the oracle",
     _R + "flat_ring": "translated: face loop (normal-form layer flat_ringFaces_norm) and the chained rotations — flat_ring_euler, flat_ring_facesDistinct, flat_ring_angle",
     _P + "chain_of_vertices": "translated: edge list through the pair iterators — chain_open, chain_loop; vertex positions (from_arrays) by the oracle",
     _P + "vector_field": "translated: edge loop and the two points stored per row — vector_field_edges, vector_field_points; the shape checks / padding by the oracle",
-    _D + "dual_mesh": "translated: both loops as functional terms (dualVerts, dualFaces), mode dispatch — dual_loops, dual_positions, dual_face_is_ring, dual_inRange, dual_noUnused, dual_closed (under the ring hypothesis RingAt = what C01's ring_sorted gives for vertex_to_faces; the hypothesis is checked on every explored base mesh), dual_counts, dual_modes_as_named; the attribute functions (barycentre / circumcentre) belong to C07: positions by the oracle",
+    _D + "dual_mesh": "translated: both loops as functional terms (dualVerts, dualFaces), mode dispatch — dual_loops, dual_positions, dual_face_is_ring, dual_inRange, dual_noUnused, dual_closed, dual_oriented (under the ring hypothesis RingAt = what C01's ring_sorted gives for vertex_to_faces; the hypothesis is checked on every explored base mesh), dual_counts, dual_modes_as_named; the attribute functions (barycentre / circumcentre) belong to C07: positions by the oracle",
     _T + "spherify_vertices": "translated: argument binding of icosphere(), loop + merge — transform_bindings, spherify_counts; merge belongs to C06",
     _T + "cylindrify_edges": "translated: argument binding of cylinder(), loop + merge — transform_bindings, cylindrify_counts; mean_edge_length belongs to C07",
 }
@@ -1482,6 +1511,51 @@ MANIFEST = {
 }
 
 
+_FAMILY_PREFIX = [("flat_ring", {"flat_ring"}), ("unit_triangle", {"unit_triangle"}), ("unit_grid", {"unit_grid"}), ("sphere_uv", {"sphere_uv"}),
+                  ("cylinder", {"cylinder"}), ("torus", {"torus"}), ("ring", {"ring"}), ("fan", {"ring", "flat_ring"}), ("sph", {"sphere_uv"}),
+                  ("cyl", {"cylinder"}), ("grid", {"unit_grid"}), ("tri", {"unit_triangle"}), ("tv", {"unit_triangle"}), ("lin", {"unit_grid", "unit_triangle"})]
+_PARAM_GENS = ("unit_grid", "unit_triangle", "torus", "sphere_uv", "cylinder", "ring", "flat_ring")
+
+
+def _family_of_name(name):
+    for pre, fam in _FAMILY_PREFIX:
+        if name.startswith(pre): return fam
+    return None
+
+
+def _families_of_break(broken, mismatches):
+    """the parametric families everything that broke belongs to, or None when that cannot be told (then the search covers all):
+    translation sites are named `<file>:<function> …`; a build error `Mouette/<dir>/<file>.lean:<line>` is attributed to the family
+    the enclosing theorem is named after (`ringFaces_norm`, `cylinder_open_euler`, `sph_face_sides` …)"""
+    import re
+    from ..leanio import LEAN
+    fams = set()
+    if not broken and not mismatches: return None
+    for b_ in broken:
+        if b_["kind"] == "translator":
+            m = re.search(r"\.py:(\w+)", b_["name"])
+            if not m or m.group(1) not in _PARAM_GENS: return None
+            fams.add(m.group(1))
+        elif b_["kind"] == "lake-build":
+            errs = re.findall(r"(Mouette/(?:Props|Lemmas)/C14\w*\.lean):(\d+)", b_["detail"])
+            other = re.findall(r"error: (Mouette/\S+\.lean)", b_["detail"])
+            if not errs or any(not o.startswith(("Mouette/Props/C14", "Mouette/Lemmas/C14")) for o in other): return None
+            for path, line in errs:
+                try: lines = open(os.path.join(LEAN, path)).read().split("\n")[:int(line)]
+                except OSError: return None
+                names = [re.match(r"\s*(?:theorem|lemma|example|def)\s+(\w+)", l) for l in lines]
+                names = [m.group(1) for m in names if m]
+                f = _family_of_name(names[-1]) if names else None
+                if f is None: return None
+                fams |= f
+        elif b_["kind"] != "missing-theorem": return None
+    for m_ in mismatches:
+        g = m_[0].get("gen") if isinstance(m_[0], dict) else None
+        if g not in _PARAM_GENS: return None
+        fams.add(g)
+    return fams or None
+
+
 def search_on_break(rng, broken, mismatches):
     """A proof obligation, a translation site or the correspondence broke: widen the failing-input search far beyond the
     tier's box — every integer parameter of every parametric generator is swept up to 400 (others kept small).
@@ -1540,6 +1614,22 @@ def search_on_break(rng, broken, mismatches):
     mins = {"unit_grid": (2, 2), "unit_triangle": (2, 2), "torus": (3, 3), "sphere_uv": (1, 3), "cylinder": (3,),
             "ring": (3, 1), "flat_ring": (3, 1)}
     if cyl_only: mins = {"cylinder": (3,)}
+    # a break confined to some parametric families (error lines inside theorems named after them, their translation sites, mismatches
+    # on them): sweep those families only, and for the rings add the full product resolution x covers x open/closed x defects
+    fams = None if cyl_only else _families_of_break(broken, mismatches)
+    extra = []
+    if fams is not None:
+        mins = {g: v for g, v in mins.items() if g in fams}
+        if "cylinder" not in fams: fam = []
+        if fams & {"ring", "flat_ring"}:
+            for n in range(3, 25):
+                for c_ in (1, 2, 3, 4):
+                    dv = rng.choice(DEFECTS)
+                    if "ring" in fams: extra += [{"gen": "ring", "ints": [n, c_], "bools": [o], "geo": dict(_geo(rng), defect=dv)} for o in (False, True)]
+                    if "flat_ring" in fams: extra.append({"gen": "flat_ring", "ints": [n, c_], "bools": [], "geo": dict(_geo(rng), defect=dv)})
+            if "ring" in fams:
+                extra += [{"gen": "ring", "ints": [n, 1], "bools": [o], "geo": dict(_geo(rng), defect=dv)} for dv in DEFECTS + [5.9, 6.1]
+                          for n in (3, 4, 5, 6, 8, 10, 25) for o in (False, True)]
     nb = {"unit_grid": 2, "unit_triangle": 1, "torus": 1, "sphere_uv": 0, "cylinder": 1, "ring": 1, "flat_ring": 0}
     out = []
     for g, lo in mins.items():
@@ -1552,4 +1642,4 @@ def search_on_break(rng, broken, mismatches):
                 if g == "unit_triangle" and ints[0] < ints[1]: ints[0] = ints[1]
                 bools = [rng.random() < 0.5 for _ in range(nb[g])]
                 out.append({"gen": g, "ints": ints, "bools": bools, "geo": _geo(rng)})
-    return fam + out
+    return fam + extra + out
